@@ -113,12 +113,13 @@ theorem foreign_pushes_change_nothing (own : String) (s : St) (ops : List Op) :
       simp only [List.filter_cons, hf', Bool.not_false, if_true, run_cons]
       exact ih _
 
-/-- **An authorised push is applied and acknowledged exactly once**, with the id of the push: sender absent,
+/-- **An authorised push is applied and acknowledged exactly once**, with the id of the push and addressed to
+its sender: sender absent,
 or any JID of the user's own account (bare or full — the code compares `jidToBareJid(from)`). -/
 theorem authorised_push_applied_and_acked (own : String) (s : St) (sender id : String) (items : List Item)
     (h : sender = "" ∨ bare sender = own) :
     (step own s (.rosterIq .set sender id items)).1 = { s with entries := items.foldl applyItem s.entries }
-    ∧ (step own s (.rosterIq .set sender id items)).2.filter Out.isSentResult = [.sentResult id] := by
+    ∧ (step own s (.rosterIq .set sender id items)).2.filter Out.isSentResult = [.sentResult id sender] := by
   have ha : authorised own sender = true := by
     rcases h with h | h <;> simp [authorised, h]
   constructor
@@ -249,7 +250,7 @@ example :
     step "me@example.org" s (.rosterIq .set "mallory@evil.example/x" "p1" [{ jid := "a@x", name := "", sub := .remove, groups := [] }])
       = (s, [.sentError "p1"])
     ∧ (step "me@example.org" s (.rosterIq .set "me@example.org/other" "p2" [{ jid := "a@x", name := "", sub := .remove, groups := [] }]))
-      = ({ s with entries := [] }, [.sentResult "p2", .itemRemoved "a@x"]) := by decide
+      = ({ s with entries := [] }, [.sentResult "p2" "me@example.org/other", .itemRemoved "a@x"]) := by decide
 
 -- last full roster + later pushes in order; an answer of the previous session is not taken
 example : (run "me@example.org" init
